@@ -9,7 +9,8 @@ CONSTANTS
   WM = 12
   ConstructSlots <- Slots3
   Unbounded = FALSE
+  ViewIds <- Views2
   Ops <- AllOps
-INVARIANTS Refines NoAlias NoUseAfterFree NoDoubleFree NoLeak
+INVARIANTS Refines NoAlias NoUseAfterFree NoDoubleFree NoLeak ViewsValid ViewsSeeOwner
 POSTCONDITION Accepted
 CHECK_DEADLOCK FALSE
